@@ -475,6 +475,33 @@ func modelSortSort(fc *FnCtx, c *ssa.CallCommon, args []Val, rt types.Type) (*Va
 	if err != nil {
 		return nil, err
 	}
+	fc.permute(s, st)
+	return nil, nil
+}
+
+// modelShuffle: rand.Shuffle(n, slice.Swap) permutes the elements of the slice bound to the swap method value.
+func (fc *FnCtx) modelShuffle(c *ssa.CallCommon) error {
+	mc, ok := c.Args[1].(*ssa.MakeClosure)
+	if !ok || len(mc.Bindings) != 1 {
+		fc.havocAll()
+		return nil
+	}
+	st, ok := mc.Bindings[0].Type().Underlying().(*types.Slice)
+	if !ok {
+		fc.havocAll()
+		return nil
+	}
+	fc.vc.trust("rand.Shuffle(n, s.Swap) permutes the elements of s (some permutation)")
+	s, err := fc.val(mc.Bindings[0])
+	if err != nil {
+		return err
+	}
+	fc.permute(s, st)
+	return nil
+}
+
+// permute replaces the visible elements of slice s by an unknown permutation of themselves.
+func (fc *FnCtx) permute(s Val, st *types.Slice) {
 	comp := elemComp(st.Elem())
 	srt := arraySort(arraySort(fc.sortStr(st.Elem())))
 	old := fc.getComp(comp, srt)
@@ -497,7 +524,6 @@ func modelSortSort(fc *FnCtx, c *ssa.CallCommon, args []Val, rt types.Type) (*Va
 	fc.vc.assume(fc.cur.reach, "(forall (("+q+" Int)) (! (=> (not "+inr(q)+") (= (select "+newArr+" "+q+") (select "+sel(old, arr)+" "+q+"))) :pattern ((select "+newArr+" "+q+"))))")
 	fc.setComp(comp, srt, sto(old, arr, newArr))
 	fc.lastSort = &sortInfo{perm: pf, newArr: newArr, slice: s}
-	return nil, nil
 }
 
 type sortInfo struct {
@@ -660,6 +686,14 @@ func (fc *FnCtx) execAppend(c *ssa.CallCommon, args []Val, rt types.Type) (*Val,
 	fc.setComp(comp, srt, mkIte(inPlace, sto(E, sArr, inArr), sto(E, fresh, frArr)))
 	res := fc.vc.fresh("appended", "Slice")
 	fc.vc.assert(mkEq(res, mkIte(inPlace, mkSlice(sArr, sOff, newLen, sCap), mkSlice(fresh, "0", newLen, newCap))))
+	// lemma (a consequence of the definitions above), triggered on the OLD element term so that existential goals
+	// about the appended slice find their witnesses: old elements keep their position
+	{
+		newE := fc.getComp(comp, srt)
+		fc.vc.nfresh++
+		q := fmt.Sprintf("q!ap!%d", fc.vc.nfresh)
+		fc.vc.assert("(forall ((" + q + " Int)) (! (=> (and (<= " + sOff + " " + q + ") (< " + q + " (+ " + sOff + " " + sLen + "))) (= (select (select " + newE + " (s-arr " + res + ")) (+ (s-off " + res + ") (- " + q + " " + sOff + "))) (select (select " + E + " " + sArr + ") " + q + "))) :pattern ((select (select " + E + " " + sArr + ") " + q + ")) :qid append-keeps))")
+	}
 	return &Val{T: res, S: SSlice, Typ: rt}, nil
 }
 
